@@ -653,6 +653,7 @@ package evaluator
 //@   ensures result1 == nil ==> result0 != nil
 //@   modifies nothing
 //@ func intLenFunc
+//@   goal counts-the-digits: result1 == nil && isInt(result0, ite(as(receiver, *object.Int).Value < 0, len(lib("strconv.FormatInt", as(receiver, *object.Int).Value, 10)) - 1, len(lib("strconv.FormatInt", as(receiver, *object.Int).Value, 10))))
 //@   ints wrap64
 //@   requires receiver != nil && istype(receiver, *object.Int)
 //@   ensures result1 == nil ==> result0 != nil
